@@ -1,0 +1,23 @@
+//! Verification instrumentation, compiled only with the `verif-hooks` cargo feature.
+//!
+//! A process-global callback receives named events (data events and yield points).
+//! The callback may block the calling thread (used by the turn-based scheduler of the
+//! verification harness). With the feature off this module does not exist.
+use std::sync::{Arc, RwLock};
+
+pub type Callback = dyn Fn(&str, &[u64], &[u8]) + Send + Sync + 'static;
+
+static CALLBACK: RwLock<Option<Arc<Callback>>> = RwLock::new(None);
+
+/// Install (or clear) the process-global event callback.
+pub fn set_callback(cb: Option<Arc<Callback>>) {
+    *CALLBACK.write().unwrap() = cb;
+}
+
+/// Emit an event; does nothing when no callback is installed.
+pub fn emit(name: &str, nums: &[u64], bytes: &[u8]) {
+    let cb = { CALLBACK.read().unwrap().clone() };
+    if let Some(cb) = cb {
+        cb(name, nums, bytes);
+    }
+}
